@@ -222,12 +222,9 @@ class PatternEventStream(PatternValueStream):
 
     def clear(self):
         if self._stream:
-            try:
-                self._stream.throw(stm.StopStream)
-            except StopIteration:
-                pass
-            except RuntimeError as e:
-                # A generator suspended outside its StopStream handler lets
-                # the exception through, Python turns it into RuntimeError.
-                if not isinstance(e.__cause__, StopIteration):
-                    raise
+            # The generator is closed, not resumed: a pattern that handles a
+            # StopStream thrown into it and returns (Pmono, Pbind, Pchain)
+            # hands control to the enclosing Pseq or Pn, which would go on and
+            # embed its next pattern inside this call. What the patterns left
+            # to clean up is registered in the player's cleanup.
+            self._stream.close()
